@@ -412,7 +412,8 @@ func (zp *ZoneParser) Next() (RR, bool) {
 			switch l, _ := zp.c.Next(); l.value {
 			case zBlank:
 				l, _ := zp.c.Next()
-				if l.value == zString {
+				// See $ORIGIN: the origin may look like a type or class mnemonic.
+				if l.value == zString || l.value == zRrtpe || l.value == zClass {
 					name, ok := toAbsoluteName(l.token, zp.origin)
 					if !ok {
 						return zp.setParseError("bad origin name", l)
@@ -504,7 +505,9 @@ func (zp *ZoneParser) Next() (RR, bool) {
 
 			st = zExpectDirOrigin
 		case zExpectDirOrigin:
-			if l.value != zString {
+			// A relative origin may spell a type or class mnemonic ("a", "mx", "in"),
+			// which the lexer, not knowing the context, hands over as such.
+			if l.value != zString && l.value != zRrtpe && l.value != zClass {
 				return zp.setParseError("expecting $ORIGIN value, not this...", l)
 			}
 
